@@ -2,7 +2,7 @@ package main
 
 // Go -> Coq serialisers for token lists (coq/Syn/Tok.v), built on cqStr / cqZ of ser_core.go.
 // Strings with a byte outside printable ASCII come out as `(sb [..])`: case files that use these
-// need `Require Import X.Corr.Universe` besides ZArith, List, String.
+// need `sb` in scope (defined in Corr/Universe.v and, identically, in Corr/CorrC11.v).
 
 import (
 	"fmt"
